@@ -914,6 +914,8 @@ func (e *Engine) anchorsOf(fn *ssa.Function) map[ssa.Instruction]string {
 				key = "panic"
 			case *ssa.Send:
 				key = "send"
+			case *ssa.Select:
+				key = "select"
 			case *ssa.UnOp:
 				if x.Op == token.ARROW {
 					key = "recv"
@@ -1004,6 +1006,15 @@ func (e *Engine) runAts(st *State, in ssa.Instruction, after bool) {
 				} else {
 					env.callArgs = append(env.callArgs, Val{})
 				}
+			}
+		}
+		if uo, ok := in.(*ssa.UnOp); ok && uo.Op == token.ARROW {
+			// at recv#k: callarg0 is the channel received from
+			env.callArgs = append(env.callArgs, e.reg(st, uo.X))
+		}
+		if sl, ok := in.(*ssa.Select); ok {
+			for _, s := range sl.States {
+				env.callArgs = append(env.callArgs, e.reg(st, s.Chan))
 			}
 		}
 		if sd, ok := in.(*ssa.Send); ok {
